@@ -219,6 +219,20 @@ func init() {
 	reg(func(p *Path, fr *frame, fn *ssa.Function, a []Value) Value {
 		panic(abortSignal{})
 	}, zz+"Abort")
+	reg(func(p *Path, fr *frame, fn *ssa.Function, a []Value) Value {
+		p.lockCb = nil
+		switch c := a[0].(type) {
+		case *Closure:
+			if c != nil {
+				p.lockCb = c
+			}
+		case *ssa.Function:
+			if c != nil {
+				p.lockCb = c
+			}
+		}
+		return nil
+	}, zz+"OnLock")
 	reg(func(p *Path, fr *frame, fn *ssa.Function, a []Value) (res Value) {
 		depth := p.depth
 		defer func() {
